@@ -251,6 +251,22 @@ def exponent(ck, F):
     tf = [c for c in b.calls() if "TryFrom<abasic_core::value::Value> for f64" in c.callee]
     ck.require(len(tf) == 2, "C02:TYPING:exponent", "typing table", "both operands are converted with TryFrom<Value> for f64 (TYPE MISMATCH on strings)",
                "evaluate_exponent converts %d operands through the checked f64 conversion" % len(tf), b.span)
+    bad = 0
+    n_ok = 0
+    for r in path_records(b):
+        if r["outcome"] != "Ok":
+            continue
+        n_ok += 1
+        conv = [c for c in r["calls"] if "TryFrom<abasic_core::value::Value> for f64" in c.callee]
+        params = set()
+        for c in conv:
+            params |= expr_params(b.expr(c.args[0]))
+        if params != {0, 1}:
+            bad += 1
+    ck.require(n_ok >= 1 and bad == 0, "C02:TYPING:exponent-all-paths", "typing table",
+               "every successful path converts BOTH operands through the checked f64 conversion",
+               "evaluate_exponent has a success path (%d of %d) that skips the numeric check of an operand: e.g. a fast path "
+               "for a zero exponent lets `\"abc\" ^ 0` evaluate instead of raising TYPE MISMATCH" % (bad, n_ok), b.span)
     tfb = F.one("abasic_core::value::<impl core::convert::TryFrom<abasic_core::value::Value> for f64>::try_from")
     if tfb is None:
         ck.missing("C02:TYPING:f64-try_from", "impl TryFrom<Value> for f64")
